@@ -103,6 +103,10 @@ type Fault struct {
 	K       int
 	Errno   int
 	Short   bool // short write: let half of the bytes through instead of failing
+	// AfterMarker: only calls issued after this marker was seen are counted
+	AfterMarker string
+	// Filter (optional) narrows the calls that are counted further
+	Filter func(Event) bool `json:"-"`
 }
 
 type Options struct {
@@ -247,6 +251,7 @@ func Run(o Options) (tr *Trace) {
 	threads := map[int]*thread{pid: {}}
 	imageIdx := map[string]int{}
 	classCount := map[string]int{}
+	markerSeen := map[string]bool{}
 	faultCount := 0
 	inflight := 0
 	var queue []int // tids stopped at the entry of a mutating call, waiting for the in-flight one
@@ -285,12 +290,15 @@ func Run(o Options) (tr *Trace) {
 		ev.Image = snapshot()
 		ev.Tid = tid
 		classCount[ev.Class]++
-		if f := o.Fault; f != nil {
+		if f := o.Fault; f != nil && (f.AfterMarker == "" || markerSeen[f.AfterMarker]) {
 			match := len(f.Classes) == 0
 			for _, c := range f.Classes {
 				if c == ev.Class {
 					match = true
 				}
+			}
+			if match && f.Filter != nil && !f.Filter(ev) {
+				match = false
 			}
 			if match {
 				if faultCount == f.K {
@@ -429,6 +437,7 @@ func Run(o Options) (tr *Trace) {
 				if fd == 3 {
 					// marker
 					txt := strings.TrimSpace(string(readBytes(tid, uintptr(regs.Rsi), int(regs.Rdx))))
+					markerSeen[txt] = true
 					add(Event{Kind: "marker", Marker: txt, Tid: tid, Image: snapshotIfQuiet(inflight, snapshot)})
 					if o.Hold != nil && held != 0 && txt == o.Hold.Release {
 						add(Event{Kind: "release", Marker: txt, Image: -1})
